@@ -53,6 +53,8 @@ SECTS = [
     ('\\mbox{where $v$ holds.}', [('t', 'where @INLINE@ holds.')]),
     ('< w \\mbox{and}', [('m', '<', True, ''), ('t', 'and')]),
     ('.', [('m', None, False, '.')]),
+    ('\\mbox{for } -y,', [('t', 'for '), ('m', '-', True, ',')]),
+    ('t \\mbox{ or } = o', [('m', None, True, ''), ('t', ' or '), ('m', '=', True, '')]),
     ('\\text{ for } z,', [('t', ' for '), ('m', None, True, ',')]),      # needs amsmath
 ]
 NSYM = len(SECTS) - 1        # the last kind is used in fixed documents only
@@ -218,7 +220,7 @@ def rows_of(shape, picks):
 
 
 OFFDOCS = {
-    'text_amsmath': ('align', 'amsmath', [[0, 1], [22, 5]], 'en', False),
+    'text_amsmath': ('align', 'amsmath', [[0, 1], [24, 5]], 'en', False),
     'align2': ('align', 'amsmath', [[0, 1], [9, 5]], 'en', False),
     'eqnarray': ('eqnarray', None, [[0, 10, 0], [7, 18, 13]], 'de', False),
     'bracket_text': ('BRACKET', None, [[8]], 'en', False),
